@@ -702,6 +702,70 @@ example : SubDay (Pe exCfg2) := by unfold SubDay NoSub; decide
 #guard getInfo exCfg2 .filename none {} "/noaa18/20161231_2330-0015_noaa18.nc".toList
         = .ok (exS, exE, [("sat", "noaa18".toList)])
 
+-- joint hypotheses of C02_end_full / C02_roundtrip_full: end spelled out completely
+def exPath3 : List Tok :=
+  [.lit '/', .ph (.time false .year), .ph (.time false .month), .ph (.time false .day), .lit '_',
+   .ph (.time false .hour), .lit '-', .ph (.time true .year2), .ph (.time true .doy), .lit 'T',
+   .ph (.time true .hour), .ph (.time true .minute), .lit '.', .lit 'n', .lit 'c']
+def exCfg3 : Cfg := { path := exPath3 }
+def exCtx3 : Ctx := { s := { y := 2016, mo := 12, d := 31, h := 23 }, e := exE }
+
+theorem exRoundTrip3 : RoundTrip exCfg3 exCtx3 := by
+  refine ⟨?_, by unfold GoodTime Valid; decide, by unfold GoodTime Valid; decide,
+    by unfold StdOK NoSub; decide, by unfold StdOK NoSub; decide, by unfold HasDate; decide,
+    by decide⟩
+  simp [exCfg3, exPath3, Unambig, regexActive, special, fillable]
+
+example :=
+  C02_roundtrip_full exCfg3 exCtx3 exRoundTrip3 none {} (by unfold HasDate; decide)
+    (by decide) (by decide) (by decide) (by decide) (by decide) (by decide +kernel)
+
+example :=
+  C02_end_full exPath3 (Ps exCfg3) (Pe exCfg3) exCtx3.s exCtx3.e (by unfold Valid; decide)
+    (by unfold Valid; decide) (by unfold HasDate; decide) (by unfold HasDate; decide)
+    (by decide) (by decide) (by decide) (by decide) (by decide +kernel)
+#guard format exCfg3 exPath3 exCtx3 = .ok "/20161231_23-17001T0015.nc".toList
+#guard getInfo exCfg3 .filename none {} "/20161231_23-17001T0015.nc".toList = .ok (exCtx3.s, exE, [])
+
+-- joint hypotheses of C02_roundtrip_default: no end fields, a value-list placeholder
+def exPath4 : List Tok :=
+  [.lit '/', .ph (.time false .year2), .ph (.time false .doy), .lit '_', .ph (.user "sat"),
+   .lit '.', .lit 'h', .lit '5']
+def exCfg4 : Cfg := { path := exPath4, env := [("sat", .alt ["a".toList, "ab".toList])] }
+def exCtx4 : Ctx := { s := { y := 2064, mo := 12, d := 31 }, e := { y := 2064, mo := 12, d := 31 },
+                      fill := [("sat", "ab".toList)] }
+
+theorem exRoundTrip4 : RoundTrip exCfg4 exCtx4 := by
+  refine ⟨?_, by unfold GoodTime Valid; decide, by unfold GoodTime Valid; decide,
+    by unfold StdOK NoSub; decide, by unfold StdOK NoSub; decide, by unfold HasDate; decide,
+    by decide⟩
+  simp [exCfg4, exPath4, exCtx4, Unambig, UserOK, Cfg.regexOf, regexActive, special, fillable,
+    List.lookup]
+
+example :=
+  C02_roundtrip_default exCfg4 exCtx4 exRoundTrip4 {} (by intro f; cases f <;> decide)
+#guard getInfo exCfg4 .filename (some 3600000000) {} "/64366_ab.h5".toList
+        = .ok (exCtx4.s, { y := 2064, mo := 12, d := 31, h := 1 }, [("sat", "ab".toList)])
+
+-- joint hypotheses of C02_roundtrip_subhour: `end_minute` only, roll-over into the next hour/day/year
+def exPath5 : List Tok :=
+  [.lit '/', .ph (.time false .year), .ph (.time false .doy), .lit '.', .ph (.time false .hour),
+   .ph (.time false .minute), .lit '-', .ph (.time true .minute)]
+def exCfg5 : Cfg := { path := exPath5 }
+def exCtx5 : Ctx := { s := { y := 2016, mo := 12, d := 31, h := 23, mi := 50 },
+                      e := { y := 2017, mo := 1, d := 1, h := 0, mi := 10 } }
+
+theorem exRoundTrip5 : RoundTrip exCfg5 exCtx5 := by
+  refine ⟨?_, by unfold GoodTime Valid; decide, by unfold GoodTime Valid; decide,
+    by unfold StdOK NoSub; decide, by unfold StdOK NoSub; decide, by unfold HasDate; decide,
+    by decide⟩
+  simp [exCfg5, exPath5, Unambig, regexActive, special, fillable]
+
+example :=
+  C02_roundtrip_subhour exCfg5 exCtx5 exRoundTrip5 none {} (by unfold SubDay NoSub; decide)
+    (by decide) (by decide) (by decide) (by decide +kernel) (by decide +kernel)
+#guard getInfo exCfg5 .filename none {} "/2016366.2350-10".toList = .ok (exCtx5.s, exCtx5.e, [])
+
 end Examples
 
 assert_axioms C02_parse_pad C02_ofYearDoy_doyOf C02_toMicros_strictMono C02_lt_iff_lex
